@@ -184,7 +184,7 @@ HINT_DATA_PRE = r'''proof {
                     }
                     '''
 HINT_DATA_STEP = r'''proof {
-                        assert(old(self).target(__g as int, g_idx) == sender_idx);
+                        assert(old(self).target(__g as int, g_idx) == sender_idx);   // #obl:end.data_element_to_the_indexed_sender_of_each_group
                         assert(sender_idx < old(self).senders@.len());
                         assert(!old(self).is_target_upto(sender_idx as int, g_idx, __g as int));
                     }
